@@ -18,7 +18,7 @@ ASSUMPTIONS = ["the argument -> path table below was written from the builders' 
                "an option the builders expose takes the builder's documented (signature) default when unspecified; options they do not expose take the schema default",
                "an augmentation counts as enabled when its probability is > 0 and, for the affine ones, its parameter is non-neutral (rotation != 0, scale != (1,1), translation > 0)"]
 SHARDS = {"quick": 4, "thorough": 16}
-N_RANDOM = {"quick": 300, "thorough": 6000}
+N_RANDOM = {"quick": 200, "thorough": 6000}
 BUDGET = {"quick": 110, "thorough": 1200}
 TIMEOUT = {"quick": 600, "thorough": 3000}
 SELF_SHARDED = True
@@ -237,7 +237,7 @@ def gen_cases(ctx):
             yield {"kind": "builder", "data": {a: v} if g == "data" else {}, "model": dict(base_model, **({a: v} if g == "model" else {})), "trainer": {a: v} if g == "trainer" else {}}
     r = ctx.rng(20, 0)
     pairs = list(itertools.combinations(range(len(singles)), 2))
-    sel = r.permutation(len(pairs))[: (500 if ctx.tier == "quick" else 6000)]
+    sel = r.permutation(len(pairs))[: (260 if ctx.tier == "quick" else 6000)]
     for j in sel:
         (g1, a1, v1), (g2, a2, v2) = singles[pairs[j][0]], singles[pairs[j][1]]
         if a1 == a2:
@@ -277,6 +277,13 @@ def gen_cases(ctx):
     for name in GEOM:
         if mine():
             yield {"kind": "auglist", "which": "geometry_aug", "names": name}
+    # behavioural: what the configured augmentation actually does to a coordinate-coded image
+    affine_lists = [list(l) for L in range(1, 4) for l in itertools.permutations(["rotation", "scale", "translate"], L)] + [["erase_scale"], ["mixup", "rotation"], ["scale", "erase_scale", "translate"]]
+    if ctx.tier == "quick":
+        affine_lists = [affine_lists[j] for j in ctx.rng(20, 7).permutation(len(affine_lists))[:8]]
+    for lst in affine_lists:
+        if mine():
+            yield {"kind": "augbehaviour", "names": lst}
     for name in INTENS:
         if mine():
             yield {"kind": "auglist", "which": "intensity_aug", "names": name}
@@ -479,8 +486,55 @@ def check_invalid(ctx, case):
     return ("invalid", t, str(case.get("field", case.get("set"))), repr(case.get("value")), case["valid"])
 
 
+def check_augbehaviour(ctx, case):
+    """Apply the augmentation the builders configured to a coordinate-coded square image over several
+    draws and decode the transform actually applied (rotation angle, scale, translation)."""
+    import torch
+    from sleap_nn.data.augmentation import apply_geometric_augmentation
+    from vf import geom
+
+    names = case["names"]
+    cfg, got = build({"use_augmentations_train": True, "geometry_aug": names}, {"head_configs": "centroid"}, {})
+    g = dict(got["data_config"]["augmentation_config"]["geometric"])
+    if g.get("scale") is not None:
+        g["scale"] = tuple(g["scale"])
+    if g.get("mixup_lambda") is not None:
+        g["mixup_lambda"] = tuple(g["mixup_lambda"])
+    H = W = 96
+    img = torch.from_numpy(geom.ramp_image_float(H, W)).unsqueeze(0)
+    inst = torch.tensor([[[[30.0, 30.0], [60.0, 50.0]]]])
+    c = np.array([(W - 1) / 2, (H - 1) / 2])
+    seen = {"rotation": 0.0, "scale": 0.0, "translate": 0.0}
+    fits = 0
+    for seed in range(14):
+        torch.manual_seed(1000 + seed)
+        out, kp = apply_geometric_augmentation(img.clone(), inst.clone(), **{k: g[k] for k in ("rotation", "scale", "translate_width", "translate_height", "affine_p")})
+        fit = geom.fit_affine(*out[0].numpy())
+        if fit is None or fit["rms"] > 0.3:
+            continue
+        fits += 1
+        A = fit["A"]
+        sc = float(np.sqrt(abs(np.linalg.det(A))))
+        ang = float(np.degrees(np.arctan2(A[1, 0], A[0, 0])))
+        tau = fit["t"] - (c - A @ c)
+        seen["rotation"] = max(seen["rotation"], abs(ang))
+        seen["scale"] = max(seen["scale"], abs(sc - 1.0))
+        seen["translate"] = max(seen["translate"], float(np.abs(tau).max()))
+    ctx.count("augbehaviour_fits", fits)
+    if fits < 6:
+        ctx.note_inconclusive(f"augmentation behaviour of {names}: only {fits} usable fits")
+        return None
+    thr = {"rotation": 0.5, "scale": 0.005, "translate": 0.6}
+    for n in ("rotation", "scale", "translate"):
+        if n in names and seen[n] <= thr[n]:
+            ctx.violation("named-augmentation-has-no-effect", f"geometry_aug={names}: '{n}' is named but no draw shows it (max observed {seen[n]:.4g})", case)
+        if n not in names and seen[n] > 3 * thr[n]:
+            ctx.violation("unnamed-augmentation-has-effect", f"geometry_aug={names}: '{n}' is not named but the applied transform shows it (max observed {seen[n]:.4g})", case)
+    return ("augbehaviour", tuple(names)) if len(names) >= 2 else None
+
+
 def check(ctx, case):
-    fn = {"builder": check_builder, "auglist": check_auglist, "augdict": check_augdict, "invalid": check_invalid}[case["kind"]]
+    fn = {"builder": check_builder, "auglist": check_auglist, "augdict": check_augdict, "invalid": check_invalid, "augbehaviour": check_augbehaviour}[case["kind"]]
     sig = fn(ctx, case)
     ctx.tick(sig, sample=case if ctx.evaluations < 5 else None)
 
